@@ -17,6 +17,7 @@ import (
 	"github.com/go-jose/go-jose/v3"
 
 	"github.com/ory/fosite"
+	"github.com/ory/fosite/compose"
 	thmac "github.com/ory/fosite/token/hmac"
 
 	"fverif/run"
@@ -243,6 +244,27 @@ func C06(c *run.Ctx) {
 			v := &thmac.HMACStrategy{Config: hcfg{Global: sA, Rotated: [][]byte{short}}.config()}
 			if err := v.Validate(ctx, tok); err == nil {
 				c.Violate(run.Violation{Kind: "short-secret-accepted", Key: fmt.Sprintf("short-secret-accepted rotated len=%d", n), Detail: "a short rotated secret authenticated a token"})
+			}
+			// every shipped generator that signs under the global secret refuses it: the core strategy's codes and tokens, the device
+			// strategy's device and user codes
+			scfg := &fosite.Config{GlobalSecret: short}
+			core := compose.NewOAuth2HMACStrategy(scfg)
+			dev := compose.NewDeviceStrategy(scfg)
+			gens := map[string]func() (string, string, error){
+				"access_token":       func() (string, string, error) { return core.GenerateAccessToken(ctx, nil) },
+				"refresh_token":      func() (string, string, error) { return core.GenerateRefreshToken(ctx, nil) },
+				"authorization_code": func() (string, string, error) { return core.GenerateAuthorizeCode(ctx, nil) },
+				"device_code":        func() (string, string, error) { return dev.GenerateDeviceCode(ctx) },
+				"user_code":          func() (string, string, error) { return dev.GenerateUserCode(ctx) },
+			}
+			for name, gen := range gens {
+				tok, sig, err := gen()
+				c.Case(fmt.Sprintf("short-secret len=%d generator=%s refused=%v", n, name, err != nil))
+				c.Count("c06_short_secret_generators", 1)
+				if err == nil {
+					c.Violate(run.Violation{Kind: "short-secret-accepted", Key: "short-secret-accepted generator=" + name,
+						Detail: fmt.Sprintf("the %s generator reported success (value %q, signature %q) under a %d-byte global secret", name, tok, sig, n)})
+				}
 			}
 		}
 	}
